@@ -331,4 +331,39 @@ def Src.oks (prev : Option Node) (o : Int) : List Src → Bool
   | x :: xs => x.ok prev o && Src.oks (lastOr (tgtL1 o x) prev) (o + x.size) xs
 end
 
+/-! ### observations on the result: the statements of a tree in order, and raw jump statements -/
+
+mutual
+/-- the statement codes of a reconstructed tree in text order: the branches of an if-then and the body of a repeat are entered,
+    every other statement contributes its code -/
+def stmtCodes : Node → List Node
+  | .stmt _ c => codeStmts c
+  | _ => []
+def codeStmts : Node → List Node
+  | .ifThen _ _ a b => stmtCodesL a ++ stmtCodesL b
+  | .repeat_ _ _ _ b _ _ _ _ _ => stmtCodesL b
+  | c => [c]
+def stmtCodesL : List Node → List Node
+  | [] => []
+  | x :: xs => stmtCodes x ++ stmtCodesL xs
+end
+
+mutual
+/-- the simple statements of a source skeleton in text order (loop-header statements belong to the header) -/
+def Src.codes1 : Src → List Node
+  | .simple s => [s.code]
+  | .ifThen _ _ t e => Src.codes t ++ Src.codes e
+  | .loop _ _ _ body => Src.codes body
+def Src.codes : List Src → List Node
+  | [] => []
+  | x :: xs => x.codes1 ++ Src.codes xs
+end
+
+/-- what `parse_opcodes` does with the statement list once the opcode loop has produced its events:
+    `condition_detect(fn)` then `loop_detect(fn)` -/
+def decompileFlow (evs : List Ev) : R (List Node) := do
+  let s ← runEv [] evs
+  let s ← condDetect s
+  loopDetect s
+
 end Drx.LinkFlow
